@@ -49,6 +49,14 @@ Allowed(c, st, t) ==
 Text(c) == {t \in 0..(Voc(c).n - 1) : ~IsSpecial(c, t) \/ t = Voc(c).eos}
 ExactMask(c, st) == {t \in Text(c) : Allowed(c, st, t)}
 
+(* forced bytes are genuinely forced: at each position the state is not accepting and exactly one byte keeps it alive *)
+RECURSIVE Forced(_, _)
+Forced(st, b) ==
+    IF b = <<>> THEN TRUE
+    ELSE /\ ~IsAcc(st)
+         /\ {x \in 0..254 : ~StepByteS(gx.G, gx.L, st, x, gx.skip).dead} = {Head(b)}
+         /\ Forced(Push(st, <<Head(b)>>), Tail(b))
+
 Exact(r) ==
     IF r.ev \in {"Init", "New", "Clone"} \/ ~Has(r.e) \/ ~Ok(r.e) THEN TRUE
     ELSE
@@ -66,6 +74,7 @@ Exact(r) ==
       [] r.ev = "ConsumeEach" -> \A t \in SeqToSet(r.tried) \cap txt : (t \in SeqToSet(r.okset)) = Allowed(c, st, t)
       [] r.ev = "Acc" /\ r.ok = 1 /\ ~Stopped(r.e) -> (r.v = 1) = IsAcc(st)
       [] r.ev = "Consume" /\ ~Stopped(r.e) /\ r.t < s.n /\ (r.t \in txt) /\ ~(r.ok = 0 /\ r.cls = "limit") -> (r.ok = 1) = Allowed(c, st, r.t)
+      [] r.ev = "FFBytes" -> Forced(st, r.b)
       [] OTHER -> TRUE
 
 Explain(r) ==
